@@ -51,6 +51,14 @@ CLAIMED = {
   text="Deductive proof for any number of disposables (tuple of unknown length; each disposable's enter/exit outcome is an uninterpreted function of the disposable): _initialize maps None/State/iterable as specified and propagates a failing enter; __aenter__ starts exactly one _initialize per disposable in order and returns the in-order concatenation of the yielded state; __aexit__ hands every disposable exactly one __aexit__ with the given exception details under return_exceptions=True, returns only when no cleanup failed, raises the single error or a group holding every error, and no cleanup error vanishes; ScopeContext enters once before the body and exits once after it with the body's details on every path; ctx.scope wraps an iterable keeping every disposable in order. One clause is refuted and listed as a known finding (no rollback of entered disposables when entering fails): it is reported as KNOWN-FINDING and not counted as proved.",
   note="Trusted: T-GATHER (every awaitable handed to gather is started; return_exceptions semantics), T-COLL (chain.from_iterable, list filter semantics), PEP 634 patterns. A cancellation delivered while the exits run may cancel not-yet-started exit coroutines (asyncio.gather): outside this property's quantifier.",
   ref="DESIGN.md 4 (C08)"),
+ "C01": dict(
+  text="Deductive proof: ScopeState.__init__ stores each instance under its exact type with later instances winning (dict-comprehension summary, for sequences of any length); ScopeState.state answers a supplied type with the supplied instance, else the explicit default, else a default-constructed instance, else MissingState - and never changes what the scope supplies (frame); ScopeState.updated yields parent view overridden by the last new instance per type, for any parent and any new sequence, leaving the receiver untouched; StateContext.current/ctx.state and StateContext.updated/ctx.updated pass through to the current ScopeState and map an unset context variable to MissingContext / a fresh scope; ScopeContext.__aenter__ builds the scope state from (*state, *disposables' state) in that order. The nesting statement is the fold of these over enclosing blocks (restoration on exit: C02).",
+  note="Trusted: T-COLL dict/dict-comprehension/values() semantics, T-CV. Default construction T() returns an instance of exact type T or raises an Exception (assumed). When the solver cannot construct a counter-model for the quantified clauses it leaves them open and the native nesting harness (bounded, labelled so) decides.",
+  ref="DESIGN.md 4 (C01)"),
+ "C03": dict(
+  text="Deductive proof of the three facts isolation rests on: both create_task calls of TaskGroupContext.run/ctx.spawn start the task from copy_context() taken at the spawn point (or the default, which is the same); a frame audit of context/state.py shows that no function mutates a ScopeState (or any module-level object) after construction and that context changes are only ContextVar.set/reset in __enter__/__exit__; ScopeState.state and .updated are proved (semantically) to leave the receiver's view untouched and updated returns a new object (copy-on-update).",
+  note="The schedule quantifier itself is discharged by T-CV (contexts are task-local; a task runs in the copy it was given): assumed, stated in the evidence. Shared mutable heap reachable from the context is the only other channel and is what is proved absent.",
+  ref="DESIGN.md 4 (C03)"),
 }
 
 ALL = [f"C{i:02d}" for i in range(1, 21)]
